@@ -47,8 +47,11 @@ def norm_row(row):
     return {k: norm_value(v) for k, v in row.items()}
 
 
-def run(spec):
-    rxns = spec["rxns"]
+_HIST = {}   # what every long-lived Balancer of this process has been asked to do so far (compact specs)
+_SPEC_KEYS = ("rxns", "threshold", "batch_size", "reaction_col", "id_col", "n_jobs", "remove_aam")
+
+
+def _kw(spec):
     kw = {}
     for k in ("reaction_col", "id_col"):
         if spec.get(k) is not None:
@@ -58,7 +61,36 @@ def run(spec):
     if spec.get("cache_dir"):
         kw["cache"] = True
         kw["cache_dir"] = spec["cache_dir"]
-    b = balancer(fresh=spec.get("fresh", False) or bool(spec.get("cache_dir")), **kw)
+    return kw
+
+
+def prior(spec):
+    """the specs that the long-lived Balancer which run(spec) would use has executed before (oldest first)"""
+    return list(_HIST.get(tuple(sorted(_kw(spec).items())), []))
+
+
+def run_history(history, spec):
+    """one FRESH Balancer: the specs of `history` one after the other, then `spec`; returns the output of `spec`"""
+    from synrbl import Balancer
+
+    kw = _kw(spec)
+    b = Balancer(n_jobs=kw.pop("n_jobs", 1), **kw)
+    for h in history:
+        _run_on(b, h)
+    return _run_on(b, spec)
+
+
+def run(spec):
+    kw = _kw(spec)
+    fresh = spec.get("fresh", False) or bool(spec.get("cache_dir"))
+    b = balancer(fresh=fresh, **kw)
+    if not fresh:
+        _HIST.setdefault(tuple(sorted(kw.items())), []).append({k: spec[k] for k in _SPEC_KEYS if k in spec})
+    return _run_on(b, spec)
+
+
+def _run_on(b, spec):
+    rxns = spec["rxns"]
     b.confidence_threshold = spec.get("threshold", 0)
     b.remove_aam = spec.get("remove_aam", True)
     stats = {}
